@@ -21,6 +21,14 @@ Theorem C11_reader_body : forall sniff i c,
 Proof. exact build_reader. Qed.
 Print Assumptions C11_reader_body.
 
+(* a reader whose dynamic type is *bytes.Buffer (the caller's own buffer): exactly its bytes as well; the
+   body variable then holds a buffer that is not the request's own *)
+Theorem C11_buffer_reader_body : forall sniff i c,
+  has_form i = false -> bi_payload i = PBuffer c ->
+  build_body sniff i = OOk (Some (bi_media i)) SOtherBuf (DBytes c).
+Proof. exact build_buffer. Qed.
+Print Assumptions C11_buffer_reader_body.
+
 (* form fields without files under a media type other than multipart/form-data: their url-encoding *)
 Theorem C11_urlencoded_body : forall sniff i,
   has_form i = true -> is_multipart i = false ->
@@ -114,12 +122,28 @@ Print Assumptions C11_header_files_under_urlencoded_refuted.
 
 (* ---- what auth saw is what is sent ---- *)
 (* an auth writer that asks k times for the body (k = 0, 1, many) is given the same bytes every time,
-   and those are the bytes then sent: whatever the body source (none, the buffer, a stream) *)
+   and those are the bytes then sent: whatever the body source (none, the request's buffer, a stream, a
+   *bytes.Buffer of the caller) *)
 Theorem C11_auth_sees_sent_bytes : forall k src content,
   let content' := match src with SNil => [] | _ => content end in
   auth_run k src content = (repeat content' k, content').
 Proof. exact auth_sees_sent_bytes. Qed.
 Print Assumptions C11_auth_sees_sent_bytes.
+
+(* the copy-on-demand closure behind GetBody is installed for every body except nil and the request's own
+   buffer (request.go:274) ... *)
+Theorem C11_getbody_override_installed : forall src,
+  override_installed src = true <-> (src <> SNil /\ src <> SBuf).
+Proof. exact override_installed_iff. Qed.
+Print Assumptions C11_getbody_override_installed.
+
+(* ... and it has to be: with a test that skips every *bytes.Buffer, the caller's own included, the auth
+   writer is shown the empty request buffer while the caller's bytes are sent *)
+Theorem C11_auth_sees_sent_bytes_refuted_without_override_for_caller_buffer :
+  exists k content answers sent,
+    auth_run_with inst_not_any_buffer k SOtherBuf content = (answers, sent) /\ answers <> repeat sent k.
+Proof. exact auth_override_needed_refuted. Qed.
+Print Assumptions C11_auth_sees_sent_bytes_refuted_without_override_for_caller_buffer.
 
 (* ---- no input makes the body selection panic (after the repair of F-C11-2) ---- *)
 Theorem C11_total : forall sniff i, build_body sniff i <> OPanic.
